@@ -28,7 +28,7 @@ theorem C03_event_goes_to_owner (s : St) (i : SrcId) (x : Src) (hx : s.srcs[i]? 
 
 /-- the blocking loop keeps receiving only while no quit was requested and some module is RUNNING -/
 theorem C03_loop_exit_conditions (n : Nat) (s : St) (c : Ctx) (hc : s.ctx = some c) (h : c.quit = true ∨ c.running = 0) :
-    runP (loopBody (n + 1)) s = (s, .inl ()) := by
+    runP (loopBody c.id (n + 1)) s = (s, .inl ()) := by
   unfold loopBody
   rcases h with h | h <;> simp [hc, h]
 
@@ -38,14 +38,17 @@ theorem C03_quit_records_code (s : St) (c : Ctx) (code : Nat) (hm : mctx s = som
   simp [apiQuit, hm, hl]
 
 /-- driving the context through dispatch uses the very same three programs as the blocking loop:
-the first call starts, a call with a quit request pending (or no RUNNING module) stops, every other call receives -/
+the first call starts (unless the context is being torn down or its loop is just being stopped: then it is refused),
+a call with a quit request pending (or no RUNNING module) stops, every other call receives -/
 theorem C03_dispatch_is_the_loop_unrolled (s : St) (c : Ctx) (hm : mctx s = some c) :
-    (c.state = .idle → c.destroying = false → runP apiDispatch s = runP loopStartP s) ∧
-    (c.state = .looping → (c.quit = true ∨ c.running = 0) → runP apiDispatch s = runP loopStopP s) ∧
+    (c.state = .idle → c.destroying = false → c.stopping = false → runP apiDispatch s = runP loopStartP s) ∧
+    (c.state = .idle → (c.destroying = true ∨ c.stopping = true) → Refuses apiDispatch s EINVAL) ∧
+    (c.state = .looping → (c.quit = true ∨ c.running = 0) → runP apiDispatch s = runP (loopStopP c.id) s) ∧
     (c.state = .looping → c.quit = false → c.running ≠ 0 →
       runP apiDispatch s = runP (do let b ← nextBatch; recvEventsP b) s) := by
-  refine ⟨fun h1 h2 => ?_, fun h1 h2 => ?_, fun h1 h2 h3 => ?_⟩
-  · simp [apiDispatch, hm, h1, h2]
+  refine ⟨fun h1 h2 h3 => ?_, fun h1 h2 => ?_, fun h1 h2 => ?_, fun h1 h2 h3 => ?_⟩
+  · simp [apiDispatch, hm, h1, h2, h3]
+  · rcases h2 with h2 | h2 <;> simp [Refuses, apiDispatch, hm, h1, h2]
   · rcases h2 with h2 | h2 <;> simp [apiDispatch, hm, h1, h2]
   · simp [apiDispatch, hm, h1, h2, h3]
 
